@@ -974,13 +974,35 @@ def main(ctx):
                     return rec.fail(case, "round trip [%d,%d]: %r, covariance %r" % (i, j, float(back[i, j]), c))
                 if i != j and abs(exp) > 1:
                     big = True
+        # the same matrix in other dtypes / memory layouts (integer-valued matrices also as int64)
+        ncall = 2
+        if d <= 3:
+            forms = [(">f8", cov.astype(">f8"), TOL), ("F-order", np.asfortranarray(cov), TOL),
+                     ("f4", cov.astype("f4"), 1e-6)]
+            if np.all(cov == np.round(cov)) and np.abs(cov).max() < 2 ** 40:
+                forms.append(("i8", cov.astype("i8"), TOL))
+            for fname, cv, tol in forms:
+                try:
+                    corv = np.asarray(stat.cov2cor(cv), dtype="f8")
+                    backv = np.asarray(stat.cor2cov(corv, np.sqrt(np.diag(cov))), dtype="f8")
+                except Exception as e:
+                    return rec.fail(case, "cov2cor/cor2cov on the %s form raised %s: %s" % (fname, type(e).__name__, e))
+                ncall += 2
+                for i in range(d):
+                    for j in range(d):
+                        c = float(np.asarray(cv, dtype="f8")[i][j])
+                        exp = c / math.sqrt(float(np.asarray(cv, dtype="f8")[i][i]) * float(np.asarray(cv, dtype="f8")[j][j]))
+                        if not relclose(corv[i, j], exp, tol):
+                            return rec.fail(case, "%s form: cor[%d,%d]=%r, cov/sqrt(cii cjj) = %r" % (fname, i, j, float(corv[i, j]), exp))
+                        if not relclose(backv[i, j], c, tol):
+                            return rec.fail(case, "%s form: round trip [%d,%d]: %r, covariance %r" % (fname, i, j, float(backv[i, j]), c))
         oc = "d=%d|%s|%s" % (d, "equal-variances" if len(set(diag)) == 1 else "unequal-variances",
                              "not-positive-definite(|cor|>1)" if big else
                              ("diagonal" if not any(off) else "correlated"))
-        rec.ok(case, outcome=oc, nontrivial=bool(d > 1 and any(off)), calls=2)
+        rec.ok(case, outcome=oc, nontrivial=bool(d > 1 and any(off)), calls=ncall)
 
-    DIAG = (1.0, 0.25, 4.0, 1e6, 1e-6)
-    OFF = (0.0, -0.5, 0.3, 2.0)
+    DIAG = (1.0, 0.25, 4.0, 1e6, 1e-6, 9.0)
+    OFF = (0.0, -0.5, 0.3, 2.0, -1.0)
     DFULL = ctx.pick(3, 4)
     unitsv = []
     for d in range(1, DFULL + 1):
